@@ -1,13 +1,66 @@
 ALL = ['C%02d' % i for i in range(1, 21)]
+T_ENUM = 'bounded exhaustive enumeration of {} on the real code, judged by {}'
 CLAIMED = {
+ 'C01': dict(
+  text='Every list of 1..4 scripts from complete families (all raw scripts <=2 bytes, all raw pairs <=1 byte, every adversarial witness of '
+       'the control-flow grammar up to the node bound x 130 lock skeletons, all 3-script lists over 1-node witnesses, 7 initial caches, 23 '
+       'limit triples incl. 0/-1) is run through run_auth_scripts; the verdict must equal the reference interpreter\'s and the call must never raise.',
+  design_ref='DESIGN.md 4/C01', technique=T_ENUM.format('script lists', 'a reference interpreter'),
+  note='Trusted base: ref/refvm.py (written from docs.md/language_spec.md). Witnesses beyond the node bound rely on the small-scope argument.'),
+ 'C02': dict(
+  text='Full 256 flags x (18 quick / 256 thorough) allowed masks, all 256 presence subsets x 256 flags, every single-bit corruption of key / '
+       'signature / covered / excluded fields, stack forms over 11 message lengths; honest signatures come from an independent RFC 8032 '
+       'implementation, never from OP_SIGN.',
+  design_ref='DESIGN.md 4/C02', technique=T_ENUM.format('flag/presence/corruption products', 'an RFC 8032 reference'),
+  note='Trusted base: ref/refed.py (checked against RFC 8032 vectors at start-up). Keys/field contents are 3 representatives each (data independence).'),
+ 'C03': dict(
+  text='Every ordered sequence of m signature tokens (valid v0 / flagged v1 / explicit-00 / outsider / garbage / corrupted) for every m<=n, '
+       'n<=4 (quick) / 5 (thorough), all key-list permutations up to n=3/4, allowed flags 01 and 00, through OP_CHECK_MULTISIG(_VERIFY) and '
+       'make_multisig_lock; oracle = maximum matching on the reference validity relation.',
+  design_ref='DESIGN.md 4/C03', technique=T_ENUM.format('signature multisets x key orders', 'a matching oracle over RFC 8032 reference signatures'),
+  note='Distinct listed keys (the quantifier). Ed25519 unforgeability assumed for "never true".'),
+ 'C06': dict(
+  text='Differential model checking of the VM against a reference interpreter: STEP = one instruction from every state of a bounded state '
+       'set (all opcodes x boundary operands x stacks of depth<=3 over 16/40 items x caches x limit configs, plus all operand truncations); '
+       'CTRL = every control-flow program up to the node bound (full grammar <=3/4 nodes, skeleton <=4/5, nesting chains depth 3/4).',
+  design_ref='DESIGN.md 4/C06', technique='explicit enumeration of the single-step transition relation and of all bounded programs; reference-model comparison',
+  note='Trusted base: ref/refvm.py; behaviour the documents leave open is "unspecified" and only counted (about 7% of STEP cases).'),
+ 'C07': dict(
+  text='All sequences of <=3/4 resource-hungry statements x 65 limit triples run on the real VM with instrumented deque/Stack/Tape/opcode '
+       'table; invariants (item count, item size, no silent drop, tape pointer monotone and in range, CALL/EVAL depth, loop iterations, '
+       'instruction horizon) are evaluated at every mutation; limit outcomes judged against the reference; huge operands under tracemalloc; '
+       'deep nesting x recursion on the bare VM.',
+  design_ref='DESIGN.md 4/C07', technique='exhaustive program x limit enumeration with per-step invariant monitoring of the real VM',
+  note='callstack_limit > 128 out of scope (host recursion limit). One known finding (RecursionError under nested recursion).'),
+ 'C08': dict(
+  text='Every sequence of <=2/3 statements over every cache-writing path x every spelling of the protected key names, all skeleton / '
+       'adversarial-witness control programs, and the typed STEP space run with a recording dict as cache: any write/delete with a non-bytes '
+       'key or any change of a str-keyed value (deep compare) at any step, including failed runs, is a violation.',
+  design_ref='DESIGN.md 4/C08', technique='exhaustive enumeration of cache-attack programs with a recording cache (invariant at every write)',
+  note='No cache-writing plugin/contract installed (statement premise).'),
+ 'C09': dict(
+  text='Every nesting context of depth <=2/3 over ten context kinds (111/1111 contexts) x 63 (configuration, probe) pairs: each flag 0-10 '
+       'off, thresholds, disallow_OP_EVAL, eval_return, per-run and global plugins/contracts, SET/UNSET_FLAG; compared with the reference '
+       'interpreter and with the count of signature instructions executed.',
+  design_ref='DESIGN.md 4/C09', technique='exhaustive context x configuration product on the real VM against a reference interpreter',
+  note='Flag scope across body boundaries is undocumented and not judged.'),
  'C10': dict(
-  text='Every value of complete structured families (all ints in [-2^17,2^17], all +-(2^k+d) up to 2^16384, '
-       'all two-bit and binade-edge integers, every 1-2 byte string, every float32 exponent x sparse/dense '
-       'mantissa family; thorough: all 2^32 float32 patterns) is pushed through the real codec and integer '
-       'instructions and compared with an independent decoder. Exhaustive inside the families, nothing sampled.',
-  design_ref='DESIGN.md section 4 / C10',
-  note='Trusts Python int.from_bytes/math.ldexp as the independent codec; values outside the enumerated '
-       'families rely on the structure of the encoder (bit-count arithmetic only misbehaves at binade edges).',
-  technique='bounded exhaustive enumeration of the input space on the real code with a reference codec'),
+  text='Every value of complete structured families (all ints in [-2^17,2^17], all +-(2^k+d) up to 2^16384, all two-bit and binade-edge '
+       'integers, every 1-2 byte string, every float32 exponent x sparse/dense mantissa family; thorough: all 2^32 float32 patterns) through the '
+       'real codec and integer instructions, compared with an independent decoder.',
+  design_ref='DESIGN.md 4/C10', technique=T_ENUM.format('the input space', 'a reference codec'),
+  note='Trusts int.from_bytes / math.ldexp as the independent codec.'),
+ 'C16': dict(
+  text='Complete grid: 48 anchors (0,1,2, 2^k+-2 for every width boundary) x constraint c=t+-2 in every 1..9-byte encoding x 6 ts thresholds x '
+       'clock positions +-2 around the slack, CHECK_EPOCH likewise, malformed inputs, and the after/before/between lock builders through '
+       'run_auth_scripts with a virtual clock.',
+  design_ref='DESIGN.md 4/C16', technique=T_ENUM.format('the (t, now, c, threshold, encoding) grid', 'the arithmetic of the statement'),
+  note='Virtual clock bound into the package before import. One known finding (before-lock accepts far-future timestamps).'),
+ 'C17': dict(
+  text='Seeds x 13 message lengths x tweak scalars (edge values and all 32 clamp-bit patterns, raw and clamped): make (both makers) -> check -> '
+       'decrypt -> verify -> recover, each identity re-derived with reference Ed25519 arithmetic; every single-bit corruption of the five check '
+       'inputs; builders end to end over 6 sigfield/flag sets.',
+  design_ref='DESIGN.md 4/C17', technique=T_ENUM.format('(seed, message, tweak) products and all bit positions', 'reference Ed25519 arithmetic'),
+  note='t = 0 mod L outside the domain. Trusted base ref/refed.py.'),
 }
 NOT_YET = {p: 'check not built yet in this session (planned, see DESIGN.md section 4)' for p in ALL if p not in CLAIMED}
